@@ -1105,6 +1105,12 @@ class MoneyConverter:
         rates = [ExchangeRate(base_currency, unit_multiple, term_currency,
                               term_amount)
                  for term_currency, term_amount, unit_multiple in rate_specs]
+        # the rate specs may come from code that updated this converter
+        # meanwhile, so the type of validity has to be checked again
+        type_of_validity = self._type_of_validity
+        if type_of_validity is not None and \
+                type_of_validity is not type(validity):
+            raise ValueError('Different types of validity periods given.')
         # update internal dict
         self._type_of_validity = type(validity)
         # the term currency may be given by its symbol, so the currency of
